@@ -364,6 +364,16 @@ func vpTF(s string) string {
 }
 
 // vpGen builds a value and, independently, its expected image under T.
+// vpGenKey: a map key - a symbolic short string, or one of the string
+// constants that occur in the walkers' own code (none on a tree whose walkers
+// treat no key specially).
+func vpGenKey() string {
+	if w := vpStrConstOr("interpolateMap,interpolateOrderedMap,interpolateMapValues,interpolateAny,interpolateSlice,interpolateString", ""); w != "" {
+		return w
+	}
+	return vpStrUpTo(1, "a-b")
+}
+
 func vpGen(depth int) (val, want any) {
 	maxKind := 3
 	if depth > 0 {
@@ -400,7 +410,7 @@ func vpGen(depth int) (val, want any) {
 		v, w := map[string]any{}, map[string]any{}
 		var keys []string
 		for i := 0; i < n; i++ {
-			k := vpStrUpTo(1, "a-b")
+			k := vpGenKey()
 			for _, o := range keys {
 				vpAssume(o != k)
 			}
@@ -440,7 +450,7 @@ func vpGen(depth int) (val, want any) {
 		n := vpInt(0, vpParam("fan"))
 		v, w := ordered.NewMap[string, any](n), ordered.NewMap[string, any](n)
 		for i := 0; i < n; i++ {
-			k := vpStrUpTo(1, "a-b")
+			k := vpGenKey()
 			vpAssume(!v.Contains(k))
 			cv, cw := vpGen(depth - 1)
 			v.Set(k, cv)
